@@ -6,7 +6,7 @@
 //! The orchestrator (`../check`) builds this crate against the tree under test, runs it,
 //! matches violations against known_findings.json and writes the evidence file.
 mod util; mod isol; mod sw; mod report; mod run; mod gen; mod drive;
-mod c02; mod c03; mod c04; mod c05; mod c06; mod c07; mod c08; mod c11; mod c16; mod c18;
+mod c02; mod c03; mod c04; mod c05; mod c06; mod c07; mod c08; mod c09; mod c11; mod c16; mod c18;
 
 use report::Report;
 use serde_json::{json, Value};
@@ -46,6 +46,7 @@ fn registry(id: &str) -> Option<(Explore, Replay)> {
         "C06" => (c06::explore, c06::replay),
         "C07" => (c07::explore, c07::replay),
         "C08" => (c08::explore, c08::replay),
+        "C09" => (c09::explore, c09::replay),
         "C11" => (c11::explore, c11::replay),
         "C16" => (c16::explore, c16::replay),
         "C18" => (c18::explore, c18::replay),
